@@ -164,17 +164,38 @@ def envCreate (e : Nat) (name : String) (val : Obj) : M Obj := do
     { f with store := setStore f.store name val, numSet := if f.depth == 0 then f.numSet + 1 else f.numSet }
   pure val
 
+/-- `(*Environment).functionChanged`: `old` is the previous value of a binding about to be overwritten or deleted.
+When it is a function, the results remembered for its callers are stale: the call doing the change gets a miss
+and the cache is emptied (the Go code bumps `FunctionGeneration`, and `applyFunction` drops the cache at its next
+lookup: nothing is stored in between, every call in flight having a miss). -/
+def functionChanged (writer : Nat) (old : Option Obj) : M Unit := do
+  match old with
+  | some o =>
+    if isFuncObj o then
+      modifyFrame writer fun f => { f with getMiss := f.getMiss + 1 }
+      modify fun st => { st with cache := [] }
+  | none => pure ()
+
+/-- the store part of `(*Environment).update`: `writer` is the environment doing the assignment, `e`/`name` the
+binding that is overwritten (the target of the reference when the name was bound to one) -/
+def envStoreAt (writer e : Nat) (name : String) (val : Obj) : M Obj := do
+  let fr ← getFrame e
+  functionChanged writer (lookupStore fr.store name)
+  modifyFrame e fun f =>
+    { f with store := setStore f.store name val, numSet := if f.depth == 0 then f.numSet + 1 else f.numSet }
+  pure val
+
+/-- the binding `update` writes: the target of the reference when the name is bound to one -/
+def updTarget (e : Nat) (name : String) : Obj → Nat × String
+  | .ref re rn => (re, rn)
+  | _ => (e, name)
+
 /-- `(*Environment).update` -/
 def envUpdate (e : Nat) (name : String) (found val : Obj) : M Obj := do
   let val ← match val with
     | .ref .. => valueOf val
     | _ => pure val
-  let (e, name) := match found with
-    | .ref re rn => (re, rn)
-    | _ => (e, name)
-  modifyFrame e fun f =>
-    { f with store := setStore f.store name val, numSet := if f.depth == 0 then f.numSet + 1 else f.numSet }
-  pure val
+  envStoreAt e (updTarget e name found).1 (updTarget e name found).2 val
 
 /-- `(*Environment).SetNoChecks` -/
 def setNoChecks (e : Nat) (name : String) (val : Obj) (create : Bool) : M Obj := do
@@ -186,6 +207,8 @@ def setNoChecks (e : Nat) (name : String) (val : Obj) (create : Bool) : M Obj :=
     match ← makeRef e name with
     | some (.ref re rn) =>
       let v ← valueOf val
+      let fr ← getFrame re
+      functionChanged e (lookupStore fr.store rn)
       modifyFrame re fun f => { f with store := setStore f.store rn v }
       pure val
     | _ => envCreate e name val
@@ -240,8 +263,9 @@ where
       let f ← getFrame e
       let f := if f.depth == 0 then { f with numSet := f.numSet + 1 } else f
       match lookupStore f.store name with
-      | some _ =>
+      | some old =>
         setFrame e { f with store := delStore f.store name }
+        functionChanged e (some old)
         pure (.bool true)
       | none =>
         setFrame e f
